@@ -8,10 +8,14 @@
 #include "common.h"
 #include <stdarg.h>
 #include "/repo/src/opus_encoder.c"
+#include "/repo/silk/lin2log.c"
 VERIF_DEFINE_CELT_FATAL
 
 /* trusted stub: the CELT-layer ctl (variadic, separate TU) accepts what it is forwarded and touches nothing of OpusEncoder */
 static int verif_celt_calls, verif_celt_last_req;
+/* sub-state resets (other TUs): touch nothing of OpusEncoder's own scalar fields */
+void tonality_analysis_reset(TonalityAnalysisState *tonal) { (void)tonal; }
+opus_int silk_InitEncoder(void *encState, int arch, silk_EncControlStruct *encStatus) { (void)encState; (void)arch; (void)encStatus; return 0; }
 int celt_encoder_ctl(CELTEncoder *OPUS_RESTRICT st, int request, ...) { (void)st; verif_celt_calls++; verif_celt_last_req = request; return OPUS_OK; }
 
 /* ---- the settings of an encoder (every scalar configuration field + the SILK control block) ---- */
@@ -189,4 +193,34 @@ void h_getters_unknown(void)
    __CPROVER_assert(ret == OPUS_UNIMPLEMENTED, "unknown request => OPUS_UNIMPLEMENTED");
    __CPROVER_assert(settings_eq_except(&st, &old, 0), "unknown request leaves every setting unchanged");
    CANARY("after getters");
+}
+
+/* C12: OPUS_RESET_STATE on an arbitrary encoder: every setting is kept and the stream state is what opus_encoder_init
+   gives (zero, except the documented non-zero defaults).  Sub-encoder resets are stubs (celt_encoder_ctl) or bodiless
+   (silk_InitEncoder, tonality_analysis_reset: no effect on OpusEncoder's own fields). */
+void h_enc_reset(void)
+{
+   int ret, i;
+   SYMBOLIC_ENCODER
+   __CPROVER_assume(st.silk_enc_offset >= (int)sizeof(OpusEncoder) && st.silk_enc_offset < (int)sizeof(OpusEncoder) + VERIF_EXTRA);
+   ret = opus_encoder_ctl(&st, OPUS_RESET_STATE);
+   __CPROVER_assert(ret == OPUS_OK, "RESET_STATE succeeds");
+   __CPROVER_assert(st.application == old.application && st.channels == old.channels && st.Fs == old.Fs && st.force_channels == old.force_channels &&
+      st.signal_type == old.signal_type && st.user_bandwidth == old.user_bandwidth && st.max_bandwidth == old.max_bandwidth && st.user_forced_mode == old.user_forced_mode &&
+      st.voice_ratio == old.voice_ratio && st.use_vbr == old.use_vbr && st.vbr_constraint == old.vbr_constraint && st.variable_duration == old.variable_duration &&
+      st.user_bitrate_bps == old.user_bitrate_bps && st.lsb_depth == old.lsb_depth && st.lfe == old.lfe && st.use_dtx == old.use_dtx && st.fec_config == old.fec_config &&
+      st.delay_compensation == old.delay_compensation && st.encoder_buffer == old.encoder_buffer && st.celt_enc_offset == old.celt_enc_offset && st.silk_enc_offset == old.silk_enc_offset &&
+      st.silk_mode.complexity == old.silk_mode.complexity && st.silk_mode.useInBandFEC == old.silk_mode.useInBandFEC && st.silk_mode.packetLossPercentage == old.silk_mode.packetLossPercentage &&
+      st.silk_mode.useCBR == old.silk_mode.useCBR && st.silk_mode.reducedDependency == old.silk_mode.reducedDependency && st.silk_mode.maxInternalSampleRate == old.silk_mode.maxInternalSampleRate,
+      "RESET_STATE keeps every setting");
+   __CPROVER_assert(st.stream_channels == old.channels && st.hybrid_stereo_width_Q14 == (1 << 14) && st.prev_HB_gain == Q15ONE && st.first == 1 &&
+      st.mode == MODE_HYBRID && st.bandwidth == OPUS_BANDWIDTH_FULLBAND && st.variable_HP_smth2_Q15 == silk_LSHIFT(silk_lin2log(VARIABLE_HP_MIN_CUTOFF_HZ), 8),
+      "RESET_STATE restores the non-zero defaults of opus_encoder_init");
+   __CPROVER_assert(st.prev_mode == 0 && st.prev_channels == 0 && st.prev_framesize == 0 && st.auto_bandwidth == 0 && st.silk_bw_switch == 0 && st.energy_masking == NULL &&
+      st.detected_bandwidth == 0 && st.nb_no_activity_ms_Q1 == 0 && st.peak_signal_energy == 0 && st.nonfinal_frame == 0 && st.rangeFinal == 0 &&
+      st.hp_mem[0] == 0 && st.hp_mem[1] == 0 && st.hp_mem[2] == 0 && st.hp_mem[3] == 0 && st.width_mem.XX == 0 && st.width_mem.max_follower == 0,
+      "RESET_STATE clears the rest of the stream state (as a newly initialised encoder), including the DTX inactivity counter");
+   i = nondet_int(); __CPROVER_assume(0 <= i && i < MAX_ENCODER_BUFFER * 2);
+   __CPROVER_assert(st.delay_buffer[i] == 0, "RESET_STATE clears the delay buffer");
+   CANARY("after encoder reset");
 }
